@@ -410,6 +410,9 @@ func (g *gctx) genFile(fi int) *JFile {
 			case 0:
 			case 1:
 				base = "/" + strings.ToLower(ci.name)
+				if t.Bool(1, 5) {
+					base = "/api/v1/" + strings.ToLower(ci.name)
+				}
 				f.Annotations = append(f.Annotations, fmt.Sprintf("@RequestMapping(%q)", base))
 			case 2:
 				base = "/" + strings.ToLower(ci.name) + "s"
@@ -563,8 +566,15 @@ func (g *gctx) genFile(fi int) *JFile {
 		// Spring handler roles
 		if g.o.Controllers && f.Kind == "class" && (isController || len(f.Annotations) > 0 && f.Annotations[0] == "@Component") && t.Bool(2, 3) {
 			path := "/" + mn
-			if t.Bool(1, 6) {
+			switch t.Pick(8) {
+			case 0:
 				path = ""
+			case 1:
+				path = "/" + mn + "/{id}"
+			case 2:
+				path = mn // no leading slash: concatenated as written
+			case 3:
+				path = "/" + mn + "/{id}/items/{item}"
 			}
 			verb := ""
 			var ann string
@@ -618,8 +628,19 @@ func (g *gctx) genFile(fi int) *JFile {
 			}
 			for pi := range m.Params {
 				if len(m.Params[pi].Annotations) == 0 && t.Bool(1, 3) {
-					m.Params[pi].Annotations = append(m.Params[pi].Annotations, fmt.Sprintf("@PathVariable(%q)", m.Params[pi].Name))
+					m.Params[pi].Annotations = append(m.Params[pi].Annotations, g.pick([]string{fmt.Sprintf("@PathVariable(%q)", m.Params[pi].Name), "@RequestParam", fmt.Sprintf("@RequestParam(value = %q, required = false)", m.Params[pi].Name), "@Valid"}))
 				}
+				if t.Bool(1, 8) {
+					// `final` is a variable modifier like an annotation: before or after them
+					if t.Bool(1, 2) || len(m.Params[pi].Annotations) == 0 {
+						m.Params[pi].Annotations = append(m.Params[pi].Annotations, "final")
+					} else {
+						m.Params[pi].Annotations = append([]string{"final"}, m.Params[pi].Annotations...)
+					}
+				}
+			}
+			if t.Bool(1, 6) {
+				m.Ret = "ResponseEntity<List<" + g.pick(classPool) + ">>"
 			}
 			if isController {
 				f.Apis = append(f.Apis, ApiTruth{Verb: verb, Uri: base + path, Body: body, Pkg: ci.pkg, Class: ci.name, Method: mn})
